@@ -128,7 +128,7 @@ class FakeRedis(object):
 
 class _Pipe(object):
     def __init__(self, r):
-        self.r, self.cmds = r, []
+        self.r, self.cmds, self.busy = r, [], False
 
     def __getattr__(self, name):
         def rec(*a, **kw):
@@ -137,9 +137,19 @@ class _Pipe(object):
         return rec
 
     def execute(self):
-        out = [getattr(self.r, n)(*a, **kw) for n, a, kw in self.cmds]
-        self.cmds = []
-        return out
+        # as redis-py's Pipeline: the queued commands are packed and sent over the one connection the pipeline holds, the
+        # answers are awaited (a yield point), and the pipeline is reset when execute() ends.  A pipeline object is not
+        # meant to be shared: a second execute() while the first one waits finds the connection in use
+        # (gevent: ConcurrentObjectUseError), and whatever was queued meanwhile is dropped by the reset
+        if self.busy:
+            raise RuntimeError('This pipeline\'s connection is already being used by another greenlet')
+        self.busy = True
+        try:
+            stack = list(self.cmds)
+            return [getattr(self.r, n)(*a, **kw) for n, a, kw in stack]
+        finally:
+            self.cmds = []
+            self.busy = False
 
 
 class FakeObjectStore(object):
@@ -221,7 +231,9 @@ def disk_dirs(base=None):
 def make_disk(cfg, d=None):
     from slimta.diskstorage import DiskStorage
     d = d or disk_dirs()
-    st = DiskStorage(os.path.join(d, 'env'), os.path.join(d, 'meta'), os.path.join(d, 'tmp'))
+    # 'onedir': envelope and meta files in one directory (they differ by suffix), as a deployment may configure it
+    meta = 'env' if (cfg or {}).get('onedir') else 'meta'
+    st = DiskStorage(os.path.join(d, 'env'), os.path.join(d, meta), os.path.join(d, 'tmp'))
     st._verif_dir = d
     return st
 
